@@ -884,12 +884,12 @@ func ruleC02R6(c *Ctx) {
 	// order inside collectLeftovers
 	cl := c.P.Fn(aCollect)
 	var closes, aborts, abortSig, waits, loads, collectAck []ssa.Instruction
-	for _, op := range chanOps(cl) {
+	for _, op := range c.chanOpsR(cl) {
 		if op.Kind == "close" && fieldOf(op.Chan) == fAckerChan {
 			closes = append(closes, op.In)
 		}
 	}
-	for _, s := range callsIn(cl) {
+	for _, s := range c.callsInR(cl) {
 		cc := s.Common()
 		switch {
 		case fieldCallOf(s, fAbortConn):
@@ -907,7 +907,7 @@ func ruleC02R6(c *Ctx) {
 	// the last wait is the one that follows the abort
 	var finalWaits []ssa.Instruction
 	for _, w := range waits {
-		q := &PathQ{P: c.P}
+		q := c.pq(cl)
 		if hit, _ := q.Reach(after(w), func(x ssa.Instruction) bool { return instrSet(abortSig)[x] }); hit == nil {
 			finalWaits = append(finalWaits, w)
 		}
@@ -923,7 +923,7 @@ func ruleC02R6(c *Ctx) {
 	c.mustBeforeReturn("C02.R6", cl, entryOf(cl), sCl, "ackerChan closed on every path", "close(ackerChan)", cl.Pos(), nil)
 	dbl := false
 	for _, x := range closes {
-		q := &PathQ{P: c.P}
+		q := c.pq(cl)
 		if hit, _ := q.Reach(after(x), func(y ssa.Instruction) bool { return instrSet(closes)[y] }); hit != nil {
 			dbl = true
 		}
@@ -993,21 +993,120 @@ func ruleC02R7(c *Ctx) {
 	qr := &PathQ{P: c.P, Barrier: func(in ssa.Instruction) bool { return in == recv }}
 	hit2, tr2 := qr.Reach(entryOf(fn), isReturn)
 	c.check(hit2 == nil, "C02.R7", fn, "run cannot return without the final leftover loop", fn.Pos(), "every path to return passes the final receive loop", "run can return without draining the final leftovers: "+c.P.trailString(tr2))
-	// the channel drained is the variable assigned from runSession
-	asg := false
-	for _, f := range withAnons(fn) {
-		for _, s := range c.callsTo(f, anchorPred(aCWRunSess)) {
-			r0 := resultOf(s.Value(), 0)
-			if r0 == nil || r0.Referrers() == nil {
-				continue
-			}
-			for _, ref := range *r0.Referrers() {
-				if st, ok := ref.(*ssa.Store); ok && sameCell(&loadOf{st.Addr}, recvCh) {
-					asg = true
+	// the channel drained is what the last runSession returned: followed through local cells, phis and helper functions
+	// (their results, and their parameters back to the arguments at their call sites); a fresh channel is the initial value
+	sawSession := false
+	var prov func(v ssa.Value, d int, seen map[ssa.Value]bool) bool
+	prov = func(v ssa.Value, d int, seen map[ssa.Value]bool) bool {
+		v = strip(v)
+		if v == nil || d > 12 {
+			return false
+		}
+		if seen[v] {
+			return true
+		}
+		seen[v] = true
+		switch x := v.(type) {
+		case *ssa.MakeChan:
+			return true
+		case *ssa.Phi:
+			for _, e := range x.Edges {
+				if !prov(e, d+1, seen) {
+					return false
 				}
 			}
+			return true
+		case *ssa.UnOp:
+			if al, ok := x.X.(*ssa.Alloc); ok {
+				n := 0
+				for _, ref := range *al.Referrers() {
+					if st, ok := ref.(*ssa.Store); ok && st.Addr == ssa.Value(al) {
+						n++
+						if !prov(st.Val, d+1, seen) {
+							return false
+						}
+					}
+					// the cell is captured by a function literal that assigns it
+					if mc, ok := ref.(*ssa.MakeClosure); ok {
+						lit := mc.Fn.(*ssa.Function)
+						for i, b := range mc.Bindings {
+							if b != ssa.Value(al) || i >= len(lit.FreeVars) {
+								continue
+							}
+							fv := lit.FreeVars[i]
+							if fv.Referrers() == nil {
+								continue
+							}
+							for _, r2 := range *fv.Referrers() {
+								if st, ok := r2.(*ssa.Store); ok && st.Addr == ssa.Value(fv) {
+									n++
+									if !prov(st.Val, d+1, seen) {
+										return false
+									}
+								}
+							}
+						}
+					}
+				}
+				return n > 0
+			}
+			if fv, ok := x.X.(*ssa.FreeVar); ok {
+				if b := freeVarBinding(fv); b != nil {
+					return prov(&loadOf{b}, d+1, seen) || prov(b, d+1, seen)
+				}
+			}
+			return false
+		case *ssa.Extract:
+			if x.Index != 0 {
+				return false
+			}
+			return prov(x.Tuple, d+1, seen)
+		case *ssa.Call:
+			g := x.Common().StaticCallee()
+			if g == nil || g.Blocks == nil {
+				return false
+			}
+			if isAnchor(g, aCWRunSess) {
+				sawSession = true
+				return true
+			}
+			if !c.P.inUni[g] {
+				return false
+			}
+			rvs := returnedValues(g, 0)
+			if len(rvs) == 0 {
+				return false
+			}
+			for _, rv := range rvs {
+				if !prov(rv.Val, d+1, seen) {
+					return false
+				}
+			}
+			return true
+		case *ssa.Parameter:
+			g := x.Parent()
+			idx := -1
+			for i, q := range g.Params {
+				if q == x {
+					idx = i
+				}
+			}
+			sites := c.callSitesOf(func(f *ssa.Function) bool { return f == g })
+			if len(sites) == 0 {
+				return false
+			}
+			for _, site := range sites {
+				args := site.Common().Args
+				ai := idx - (len(g.Params) - len(args))
+				if ai < 0 || ai >= len(args) || !prov(args[ai], d+1, seen) {
+					return false
+				}
+			}
+			return true
 		}
+		return false
 	}
+	asg := recvCh != nil && prov(recvCh, 0, map[ssa.Value]bool{}) && sawSession
 	c.check(asg, "C02.R7", fn, "drained channel is the last session's leftovers", recv.Pos(), "runSession's first result is stored into the variable that the final loop drains", "the final loop does not drain the leftovers returned by the last session")
 	// OnFinished deferred, after the loop
 	okFin := true
